@@ -18,6 +18,17 @@ def main():
     ap.add_argument('--replay', default=None)
     a = ap.parse_args()
     pid = a.pid.upper()
+    # watchdog: a check that hangs is a machinery failure, never a verdict
+    import signal
+    budget = int(os.environ.get('VERIF_WATCHDOG',
+                                '7200' if a.tier == 'thorough' else '1500'))
+
+    def _alarm(signum, frame):
+        print(f'MACHINERY-ERROR property={pid}: watchdog {budget}s expired',
+              file=sys.stderr)
+        os._exit(2)
+    signal.signal(signal.SIGALRM, _alarm)
+    signal.alarm(budget)
     try:
         mod = importlib.import_module(f'checks.{pid.lower()}')
     except ImportError:
